@@ -11,11 +11,15 @@ from harness.util import vec, stack, guarded, first_failures
 
 ID = 'C03'
 LEVEL = 'proof'
-PROPERTY_MODULES = ['PanqecVerif.Properties.C03', 'PanqecVerif.Properties.C03Rank']
+PROPERTY_MODULES = ['PanqecVerif.Properties.C03', 'PanqecVerif.Properties.C03Rank',
+                    'PanqecVerif.Properties.C03BSparse', 'PanqecVerif.Properties.C03Utils']
 LEVEL_TEXT = ('Lean theorems for every vector length, every vector and every dtype path of bs_prod '
               '(uint8 wrap at any overlap, wide integers, csr): result = GF(2) symplectic form; symmetric, '
               'alternating, bilinear; syndrome linear; string/BSF/integer/weight converters mutually inverse. '
-              'Unbounded quantifiers are proved, the model is tied to bpauli.py by differential runs.')
+              'Unbounded quantifiers are proved, the model is tied to bpauli.py by differential runs. '
+              'The sparse helpers of bsparse.py (all 14 functions, csr modelled as stored entries in storage order) and the pure '
+              'integer/list helpers of utils.py have their own model, streams and theorems (insert_mod2 toggles exactly one bit, '
+              'dot = GF(2) inner product on binary rows, equal iff equal dense value, hsplit(hstack) round trip, stack/convert semantics).')
 LEVEL_NOTE = ('trusted: Lean kernel + standard axioms; correspondence harness; numpy/scipy integer dot semantics '
               '(wrap modulo 256 for 8-bit dtypes) as modelled in Model/Bits.lean; gf2_rank/brank are proved to compute the GF(2) rank (Properties/C03Rank.lean, via Mathlib finrank)')
 TECHNIQUE = 'Lean 4 proof (induction over lists, omega) + differential correspondence with the compiled model driver'
@@ -205,6 +209,13 @@ def correspondence(ctx):
         s.add(f'brank {stack(m)}', guarded(lambda: str(bpauli.brank(np.array(m)))),
               {'matrix': m, 'fn': 'brank'}, tag='brank')
     streams.append(s.run())
+
+    # --- panqec/bsparse.py, all 14 functions, against Model/BSparse.lean (harness/props/c03_bsparse.py)
+    from harness.props import c03_bsparse
+    streams += c03_bsparse.streams(ctx)
+    # --- pure integer / list helpers of panqec/utils.py against Model/UtilsPure.lean (harness/props/c03_utils.py)
+    from harness.props import c03_utils
+    streams += c03_utils.streams(ctx)
     return streams
 
 
@@ -290,6 +301,67 @@ def check_case(case):
                     if sef != [(a + b) % 2 for a, b in zip(se, sf)]:
                         return 'measure_syndrome is not GF(2)-linear'
             return None
+        if kind == 'bsparse':
+            # the sparse-row helpers on binary data, against plain list arithmetic (no model involved)
+            from panqec import bsparse as B
+            A, Bm, idx = case['A'], case['B'], case['indices']
+            sa, sb = B.from_array(A), B.from_array(Bm)
+            if B.to_array(sa).tolist() != A or B.to_array(B.from_array(np.array(A, dtype='uint8'))).tolist() != A:
+                return 'to_array(from_array(M)) != M'
+            if bool(B.equal(sa, sb)) != (A == Bm) or not B.equal(sa, B.from_array(A)):
+                return f'equal(from_array(A), from_array(B)) = {bool(B.equal(sa, sb))} but A == B is {A == Bm}'
+            if bool(B.equal(sa, 0)) != (not any(any(r) for r in A)) or bool(B.equal(0, sa)) != bool(B.equal(sa, 0)):
+                return 'equal(M, 0) differs from "M has no one"'
+            h = B.hstack([sa, sb])
+            if B.to_array(h).tolist() != [ra + rb for ra, rb in zip(A, Bm)]:
+                return 'hstack([a, b]) is not the row-wise concatenation'
+            x, z = B.hsplit(h)
+            if B.to_array(x).tolist() != A or B.to_array(z).tolist() != Bm:
+                return 'hsplit(hstack([a, b])) != (a, b)'
+            if B.to_array(B.vstack([sa, sb, sa])).tolist() != A + Bm + A:
+                return 'vstack([a, b, a]) is not the concatenation of the rows'
+            for ra, rb in zip(A, Bm):
+                want = sum(p * q for p, q in zip(ra, rb)) % 2
+                for u, v in ((B.from_array([ra]), B.from_array([rb])), (ra, B.from_array([rb])), (np.array(ra), rb)):
+                    if int(B.dot(u, v)) != want:
+                        return f'dot({ra}, {rb}) = {int(B.dot(u, v))}, GF(2) inner product = {want}'
+                hx, hz = B.hsplit(B.hstack([B.from_array([ra]), B.from_array([rb])]))
+                if (sorted(int(i) for i in hx.indices), sorted(int(i) for i in hz.indices)) != \
+                        ([i for i, v in enumerate(ra) if v], [i for i, v in enumerate(rb) if v]) \
+                        or hx.shape != (1, len(ra)) or hz.shape != (1, len(rb)):
+                    return f'hsplit(hstack([{ra}, {rb}])) stores columns {hx.indices.tolist()} and {hz.indices.tolist()}'
+                row = B.from_array([ra])
+                cur = list(ra)
+                for i in idx:
+                    i = i % len(ra)
+                    before = bool(B.is_one(i, row))
+                    if before != bool(cur[i]):
+                        return f'is_one({i}) = {before} on {cur}'
+                    B.insert_mod2(i, row)
+                    cur[i] ^= 1
+                    if B.to_array(row).tolist() != [cur] or not B.equal(row, B.from_array([cur])):
+                        return f'insert_mod2({i}) gives {B.to_array(row).tolist()} instead of {[cur]}'
+            z0 = B.zero_row(len(A[0]))
+            if B.to_array(z0).tolist() != [[0] * len(A[0])] or B.is_empty(z0) or not B.is_empty(B.empty_row(len(A[0]))) \
+                    or B.to_array(B.zero_matrix((len(A), len(A[0])))).tolist() != [[0] * len(A[0])] * len(A):
+                return 'zero_row / zero_matrix / empty_row'
+            return None
+        if kind == 'utils':
+            from panqec import utils as U
+            M = case['matrix']
+            want = [(i, j) for i, r in enumerate(M) for j, v in enumerate(r) if v]
+            if [tuple(int(x) for x in t) for t in U.list_where(M)] != want:
+                return f'list_where({M}) != {want}'
+            if {tuple(int(x) for x in t) for t in U.set_where(M)} != set(want):
+                return 'set_where'
+            d = {i: v for i, v in enumerate(M[0])}
+            if U.dict_where(d) != {k for k, v in d.items() if v}:
+                return 'dict_where'
+            arr, val = case['array'], case['value']
+            got = int(U.find_nearest(arr, val))
+            if got not in arr or any(abs(a - val) < abs(got - val) for a in arr):
+                return f'find_nearest({arr}, {val}) = {got}'
+            return None
         if kind == 'brank':
             m = np.array(case['matrix'])
             got = bpauli.brank(m)
@@ -361,6 +433,15 @@ def oracle_cases(ctx, deep):
     for _ in range(40):
         r, c = int(rng.integers(1, 8)), int(rng.integers(1, 10))
         cases.append({'kind': 'brank', 'matrix': [[int(x) for x in rng.integers(0, 2, c)] for _ in range(r)]})
+    for _ in range(80 if deep else 30):
+        r, c = int(rng.integers(1, 5)), 2 * int(rng.integers(1, 6))
+        cases.append({'kind': 'bsparse', 'A': [[int(x) for x in rng.integers(0, 2, c)] for _ in range(r)],
+                      'B': [[int(x) for x in rng.integers(0, 2, c)] for _ in range(r)],
+                      'indices': [int(x) for x in rng.integers(0, 64, 6)]})
+        cases.append({'kind': 'utils', 'matrix': [[int(x) for x in rng.integers(0, 2, c)] for _ in range(r)],
+                      'array': [int(x) for x in rng.integers(-20, 21, int(rng.integers(1, 8)))], 'value': int(rng.integers(-25, 26))})
+    cases.append({'kind': 'bsparse', 'A': [[0, 0, 0, 0]], 'B': [[0, 0, 0, 0]], 'indices': [0, 3, 0, 3]})
+    cases.append({'kind': 'bsparse', 'A': [[1, 1], [0, 1]], 'B': [[1, 1], [0, 1]], 'indices': [1, 1, 0]})
     # syndrome measurement on one object across deformations (measure, deform, measure again)
     from harness import codes as K
     for cls in (K.CLASSES if deep else ['Toric2DCode', 'RotatedPlanar2DCode', 'Toric3DCode', 'Color488Code',
